@@ -13,10 +13,11 @@
 (*    same set of non-blank cells, each with the same kind, value text,    *)
 (*    number bits and formula text.  TLC is the only judge.                *)
 (*  - a cell that does not come back unchanged is accepted only if it is   *)
-(*    the exact image CellImage(x, Actual) under the *enabled* known       *)
-(*    deviations whose trigger holds for x (KNOWN-FINDING), otherwise the  *)
-(*    event is a MISMATCH.  Afterwards the specification follows the       *)
-(*    observed workbook, so the rest of the history is still checked.      *)
+(*    the exact image ImageUnder(x, D) for a non-empty set D of *enabled*  *)
+(*    known deviations whose trigger holds for x (KNOWN-FINDING),          *)
+(*    otherwise the event is a MISMATCH.  Afterwards the specification     *)
+(*    follows the observed workbook, so the rest of the history is still   *)
+(*    checked.                                                             *)
 (* Blank cells (no value, no formula) are outside the property: both sides *)
 (* are compared under Norm.                                                *)
 (***************************************************************************)
@@ -50,30 +51,45 @@ ObsOK(list) ==
            LET o == list[i].cells[j] IN o.k \in Kinds /\ o.dt = DataType(o.k) /\ ((o.k = "num") <=> (o.b # ""))
 TextsOf(wb) == UNION {{x.v : x \in wb[i]} \cup {x.f : x \in wb[i]} : i \in DOMAIN wb}
 
-(* first difference between two normalised workbooks, kept small *)
+(* Mismatch details never quote cell texts (they may hold any character, which would break the line
+   protocol with vlib): they name sheet, row, column, the fields that differ and the kinds; the replay
+   file holds the script and the observed event, from which checks/c01.py prints the texts. *)
+FieldsDiff(x, O) == IF O = {} THEN {"absent"}
+                    ELSE LET o == CHOOSE y \in O : TRUE IN {fl \in {"k", "v", "b", "f"} : x[fl] # o[fl]}
+KindIn(O) == IF O = {} THEN "absent" ELSE (CHOOSE y \in O : TRUE).k
+Brief(i, x, O) == <<"sheet", i, "row", x.r, "col", x.c, "differs in", FieldsDiff(x, O), "expected kind", x.k,
+                    "observed kind", KindIn(O), "has formula", x.f # "">>
 Diff(want, got) ==
   IF DOMAIN want # DOMAIN got THEN <<"sheet count", Len(want), Len(got)>>
   ELSE LET bad == {i \in DOMAIN want : want[i] # got[i]} IN
        IF bad = {} THEN <<"none">>
        ELSE LET i == MinOf(bad)
-                d == (want[i] \ got[i]) \cup (got[i] \ want[i])
-                x == CHOOSE y \in d : TRUE
-            IN <<"sheet", i, "expected", At(want[i], x.r, x.c), "observed", At(got[i], x.r, x.c)>>
+                miss == {x \in want[i] : At(got[i], x.r, x.c) # {x}}
+            IN IF miss # {} THEN LET x == CHOOSE y \in miss : TRUE IN Brief(i, x, At(got[i], x.r, x.c))
+               ELSE LET o == CHOOSE y \in got[i] \ want[i] : TRUE
+                    IN <<"sheet", i, "row", o.r, "col", o.c, "unexpected cell of kind", o.k>>
 
 (* ---- known deviations per cell -------------------------------------------------------------- *)
 (* C01-KF5: a rich text without any run is written as an empty string item and read back as no value *)
 TrigKF5(i, x) == KFOn("C01-KF5") /\ <<i, x.r, x.c>> \in hollow /\ x.k = "rich" /\ TypeOf(x, Actual) = "s"
-Eff(i, x)     == IF TrigKF5(i, x) THEN [x EXCEPT !.k = "blank", !.v = ""] ELSE x
-Image(i, x)   == CellImage(Eff(i, x), Actual)
+Blanked(x)    == [x EXCEPT !.k = "blank", !.v = ""]
+Eff(i, x)     == IF TrigKF5(i, x) THEN Blanked(x) ELSE x
+(* the enabled deviations whose trigger holds for cell x of sheet i *)
 HitsOf(i, x)  == LET y == Eff(i, x) IN
   (IF TrigKF5(i, x) THEN {"C01-KF5"} ELSE {})
   \cup (IF On(Actual, "C01-KF1") /\ TrigKF1(y, Actual) THEN {"C01-KF1"} ELSE {})
   \cup (IF On(Actual, "C01-KF2") /\ TrigKF2(y) THEN {"C01-KF2"} ELSE {})
   \cup (IF On(Actual, "C01-KF3") /\ TrigKF3(y, Actual) THEN {"C01-KF3"} ELSE {})
   \cup (IF On(Actual, "C01-KF4") /\ TrigKF4(y, Actual) THEN {"C01-KF4"} ELSE {})
-(* cells of sheet i that came back neither unchanged nor as their known image *)
-Unexplained(i, W, O) ==
-  {x \in W : LET o == At(O, x.r, x.c) IN o # {x} /\ ~(HitsOf(i, x) # {} /\ o = Image(i, x))}
+(* the exact image of x when the deviations D act on it *)
+ImageUnder(x, D) == CellImage(IF "C01-KF5" \in D THEN Blanked(x) ELSE x, [dev |-> D, trim |-> tr])
+(* the non-empty sets of triggered deviations that explain the observation o of cell x exactly; more than one
+   triggered deviation may apply to a cell, and a repaired one simply no longer shows: every member of
+   the result is still a composition of known exact deviations and nothing else *)
+Explains(i, x, o) == {D \in SUBSET HitsOf(i, x) : D # {} /\ o = ImageUnder(x, D)}
+Smallest(SS)      == CHOOSE D \in SS : \A E \in SS : Cardinality(D) <= Cardinality(E)
+(* cells of sheet i that came back neither unchanged nor as a known image *)
+Unexplained(i, W, O) == {x \in W : LET o == At(O, x.r, x.c) IN o # {x} /\ Explains(i, x, o) = {}}
 Deviated(i, W, O) == {x \in W : At(O, x.r, x.c) # {x}}
 NewCells(W, O)    == {o \in O : At(W, o.r, o.c) = {}}
 
@@ -126,24 +142,25 @@ Step(e) ==
     [] e.a = "SaveLoad" ->
          LET want == NormWb(sheets) IN
          IF e.outcome # "ok" \/ e.w \notin Writers \/ ~ObsOK(e.obs)
-         THEN resync /\ Mismatch(l, <<"impl", "SaveLoad", e.w, e.outcome, e.msg>>)
+         THEN resync /\ Mismatch(l, <<"impl", "SaveLoad", e.w, "outcome", e.outcome>>)
          ELSE IF obsN = want
          THEN sheets' = want /\ hollow' = {} /\ UNCHANGED tr              \* the property, literally
          ELSE IF DOMAIN obsN = DOMAIN want
                  /\ \A i \in DOMAIN want : NewCells(want[i], obsN[i]) = {} /\ Unexplained(i, want[i], obsN[i]) = {}
          THEN /\ sheets' = obsN /\ hollow' = {} /\ UNCHANGED tr
-              /\ \A id \in UNION {UNION {HitsOf(i, x) : x \in Deviated(i, want[i], obsN[i])} : i \in DOMAIN want} :
+              /\ \A id \in UNION {UNION {Smallest(Explains(i, x, At(obsN[i], x.r, x.c))) : x \in Deviated(i, want[i], obsN[i])}
+                                   : i \in DOMAIN want} :
                     KFHit(id, l)
          ELSE /\ resync
               /\ Mismatch(l, <<"impl", "SaveLoad", e.w,
                     IF DOMAIN obsN # DOMAIN want THEN Diff(want, obsN)
                     ELSE LET bad == {i \in DOMAIN want : NewCells(want[i], obsN[i]) # {} \/ Unexplained(i, want[i], obsN[i]) # {}}
                              i == MinOf(bad)
-                         IN IF NewCells(want[i], obsN[i]) # {}
-                            THEN <<"sheet", i, "cell not in the saved workbook", CHOOSE o \in NewCells(want[i], obsN[i]) : TRUE>>
-                            ELSE LET x == CHOOSE y \in Unexplained(i, want[i], obsN[i]) : TRUE
-                                 IN <<"sheet", i, "saved", x, "reloaded", At(obsN[i], x.r, x.c),
-                                      "known deviations that apply", HitsOf(i, x)>> >>)
+                         IN IF Unexplained(i, want[i], obsN[i]) # {}
+                            THEN LET x == CHOOSE y \in Unexplained(i, want[i], obsN[i]) : TRUE
+                                 IN <<Brief(i, x, At(obsN[i], x.r, x.c)), "known deviations that apply", HitsOf(i, x)>>
+                            ELSE LET o == CHOOSE y \in NewCells(want[i], obsN[i]) : TRUE
+                                 IN <<"sheet", i, "row", o.r, "col", o.c, "cell not in the saved workbook, kind", o.k>> >>)
     [] OTHER -> UNCHANGED <<sheets, tr, hollow>> /\ Mismatch(l, <<"set", "unknown event", e.a>>)
 
 TraceInit == /\ l = 1 /\ sheets = <<>> /\ sst = <<>> /\ file = NoFile /\ pc = "edit"
